@@ -507,8 +507,11 @@ class Engine:
         i = z3.Const("i!lh", IntS)
         st.assume(z3.ForAll([r, i], z3.Implies(
             z3.And(0 <= i, i < L[r], r >= 0, r < st.next_ref),
-            z3.And(A[r][i] >= 1, A[r][i] < st.next_ref)),
-            patterns=[A[r][i]]))
+            A[r][i] < st.next_ref), patterns=[A[r][i]]))
+        # a list of records holds records (never None): type invariant of
+        # the pydantic models / dataclasses (A-PYD)
+        st.assume(z3.ForAll([r, i], z3.Implies(
+            z3.And(0 <= i, i < L[r]), A[r][i] >= 1), patterns=[A[r][i]]))
 
     def store_field(self, st: State, ref: VRef, field: str, v: V):
         key, shape = self.field_key(ref.cls, field)
